@@ -68,11 +68,17 @@ func runSolver(ctx context.Context, sp solverSpec, file string, timeout time.Dur
 }
 
 // decide races the solvers; first unsat or sat wins. With cross=true a second solver must agree on unsat.
-func decide(file string, timeout time.Duration, cross bool, sem chan struct{}) (best solverAnswer, all []solverAnswer) {
+func decide(file, weakFile string, timeout time.Duration, cross bool, sem chan struct{}) (best solverAnswer, all []solverAnswer) {
 	ctx, cancel := context.WithCancel(context.Background())
 	defer cancel()
-	ch := make(chan solverAnswer, len(solvers))
-	launch := func(sp solverSpec) {
+	// the weak variant (fewer assumptions: index injectivity instead of index arithmetic) only counts
+	// when it proves the goal; it is tried by one solver next to the full variant.
+	nTotal := len(solvers)
+	if weakFile != "" {
+		nTotal++
+	}
+	ch := make(chan solverAnswer, nTotal)
+	run := func(sp solverSpec, f string, weak bool) {
 		go func() {
 			sem <- struct{}{}
 			defer func() { <-sem }()
@@ -80,21 +86,34 @@ func decide(file string, timeout time.Duration, cross bool, sem chan struct{}) (
 				ch <- solverAnswer{sp.name, "cancelled", "", 0}
 				return
 			}
-			ch <- runSolver(ctx, sp, file, timeout)
+			a := runSolver(ctx, sp, f, timeout)
+			if weak {
+				a.solver += "(ix-injective)"
+				if a.result != "unsat" {
+					a.result = "cancelled" // a weaker context that does not prove the goal says nothing
+				}
+			}
+			ch <- a
 		}()
 	}
+	launch := func(sp solverSpec) { run(sp, file, false) }
 	launch(solvers[0])
 	launched := 1
+	weakLaunched := weakFile == ""
 	timer := time.NewTimer(700 * time.Millisecond)
 	defer timer.Stop()
 	got := 0
 	unsats := 0
-	for got < len(solvers) {
+	for got < nTotal {
 		select {
 		case <-timer.C:
 			for launched < len(solvers) {
 				launch(solvers[launched])
 				launched++
+			}
+			if !weakLaunched {
+				weakLaunched = true
+				run(solvers[0], weakFile, true)
 			}
 		case a := <-ch:
 			got++
@@ -123,6 +142,10 @@ func decide(file string, timeout time.Duration, cross bool, sem chan struct{}) (
 			for launched < len(solvers) {
 				launch(solvers[launched])
 				launched++
+			}
+			if !weakLaunched {
+				weakLaunched = true
+				run(solvers[0], weakFile, true)
 			}
 		}
 	}
@@ -155,8 +178,13 @@ func solveAll(ts []*fnTrans, outDir string, timeout time.Duration, cross bool, w
 				dir := filepath.Join(outDir, "vc", sanitize(j.t.name))
 				os.MkdirAll(dir, 0o755)
 				file := filepath.Join(dir, sanitize(strings.TrimPrefix(j.o.Name, j.t.name+"/"))+".smt2")
-				text := j.t.vc(j.o)
+				text := j.t.vc(j.o, false)
 				os.WriteFile(file, []byte(text), 0o644)
+				weakFile := ""
+				if j.o.Kind != "cover" && strings.Contains(text, "(ix ") {
+					weakFile = strings.TrimSuffix(file, ".smt2") + ".weak.smt2"
+					os.WriteFile(weakFile, []byte(j.t.vc(j.o, true)), 0o644)
+				}
 				j.o.VCFile = file
 				if len(text) > 4<<20 {
 					j.o.Result = "too-large"
@@ -171,7 +199,7 @@ func solveAll(ts []*fnTrans, outDir string, timeout time.Duration, cross bool, w
 					<-sem
 					all = []solverAnswer{best}
 				} else {
-					best, all = decide(file, timeout, cross, sem)
+					best, all = decide(file, weakFile, timeout, cross, sem)
 				}
 				j.o.Result = best.result
 				j.o.Solver = best.solver
